@@ -40,6 +40,103 @@ class CostFitness(FitnessFunction):
         return float("nan") if g % 13 == 12 else float(g)
 
 
+class EffectFitness(FitnessFunction):
+    """a fitness function that CHANGES the individual it is called on (as local optimization does): values = [genome, state];
+    state' = (7 g + 3 s + 1) % 11 is stored in the individual, the returned fitness is a function of g and state' (NaN when
+    (g + s) % 9 = 4), one call costs 1 + (g + s) % 3 counted evaluations.  Mirrors the fixed function of the driver op `evaleffect`."""
+
+    def __init__(self, delay=False):
+        super().__init__()
+        self.delay = delay
+
+    @staticmethod
+    def apply(g, s):
+        s2 = (7 * g + 3 * s + 1) % 11
+        f = float("nan") if (g + s) % 9 == 4 else float((g + 2 * s2) % 13)
+        return s2, f, 1 + (g + s) % 3
+
+    def __call__(self, individual):
+        g, st = int(individual.values[0]), int(individual.values[1])
+        s2, f, c = self.apply(g, st)
+        individual.values[1] = s2
+        self.eval_count += c
+        if self.delay:
+            time.sleep(((g * 7919) % 5) * 0.004)
+        return f
+
+
+def effect_correspondence(ctx, rep):
+    """serial and multi-process evaluation with a fitness function that changes the individual: what every slot holds afterwards
+    (genome, changed state, fitness, flag) and the count, against `EvalEffect.serialEvalE` / `multiprocessEvalE`"""
+    rng = ctx.rng
+    lines, meta = [], []
+
+    def show(c):
+        f = c._fitness
+        fs = "-" if f is None else ("nan" if math.isnan(f) else str(int(f)))
+        return f"{int(c.values[0])}:{int(c.values[1])}:{fs}:{1 if c._fit_set else 0}"
+    n_serial, n_mp = ctx.n(400, 4000), ctx.n(8, 60)
+    for t in range(n_serial + n_mp):
+        mp = t >= n_serial
+        pop = []
+        for _ in range(rng.randrange(0, 9) if not mp else rng.randrange(2, 8)):
+            g, st = rng.randrange(30), rng.randrange(11)
+            c = MultipleValueChromosome([g, st])
+            r = rng.random()
+            if r < 0.3:
+                c.fitness = EffectFitness.apply(g, st)[1] if rng.random() < 0.6 else float(rng.randrange(13))
+            elif r < 0.4:
+                c.fitness = float(rng.randrange(13))
+                c.fit_set = False
+            pop.append(c)
+        redundant = rng.random() < 0.3
+        before = [show(c) for c in pop]
+        fit = EffectFitness(delay=mp)
+        ev = Evaluation(fit, redundant=redundant, multiprocess=rng.choice([2, 3]) if mp else False)
+        case = {"before": before, "redundant": redundant, "multiprocess": mp}
+        rep.case(("effect", str(case)), any(w.endswith(":0") for w in before) or redundant)
+        rep.count("effect_mode", "multiprocess" if mp else "serial")
+        try:
+            with warnings.catch_warnings():
+                warnings.simplefilter("ignore")
+                ev(pop)
+        except Exception as exc:
+            rep.violate(f"evaluation with a state-changing fitness function raised {type(exc).__name__}: {exc}", "C19:raised", case)
+            continue
+        after = [show(c) for c in pop]
+        # oracle, independent of the model: a slot that was due holds the individual the function was applied to
+        want_count = 0
+        for i, (b, c) in enumerate(zip(before, pop)):
+            g, st, f0, fl0 = b.split(":")
+            g, st = int(g), int(st)
+            if redundant or fl0 == "0":
+                s2, f, cst = EffectFitness.apply(g, st)
+                want_count += cst
+                ok = c._fit_set and int(c.values[0]) == g and int(c.values[1]) == s2 and (c._fitness == f or (math.isnan(f) and math.isnan(c._fitness)))
+                if not ok:
+                    rep.violate(f"slot {i} was due: it should hold genome {g} with state {s2} and fitness {f}, marked evaluated; it holds {show(c)} "
+                                "(the fitness must be the function's value for the individual IN THE SLOT)", "C19:slot-not-the-evaluated-individual", case)
+                    break
+            elif show(c) != b:
+                rep.violate(f"slot {i} was marked evaluated but was touched: {b} -> {show(c)}", "C19:touched", case)
+                break
+        if ev.eval_count != want_count:
+            rep.violate(f"evaluation count {ev.eval_count}, the function's own tally is {want_count}", "C19:count", case)
+        lines.append(f"evaleffect ; {1 if redundant else 0} ; {' '.join(before)}")
+        meta.append((case, ev.eval_count, after))
+    if ctx.driver_ok and lines:
+        outs = run_driver(lines)
+        if outs and outs[0] == "bad-op":
+            rep.extra["evaleffect"] = "driver op not available"
+            return
+        rep.corr_cases = getattr(rep, "corr_cases", 0) + len(lines)
+        for line, o, (case, cnt, after) in zip(lines, outs, meta):
+            head, _, body = o.partition(" ; ")
+            toks = head.split()
+            if len(toks) < 4 or toks[0] != "ok" or int(toks[1]) != cnt or int(toks[2]) != cnt or toks[3] != "1" or body.split() != after:
+                rep.disagree(f"evaluation with a state-changing fitness function: model '{o}' vs code count={cnt} slots={after}", {"line": line, **case})
+
+
 def mkpop(rng, n):
     pop = []
     for _ in range(n):
@@ -147,6 +244,7 @@ def run(ctx, rep):
             mflags = [(int(w.split(":")[0]), w.split(":")[1] == "1") for w in body.split()]
             if toks[0] != "ok" or int(toks[1]) != cnt or int(toks[2]) != cnt or toks[3] != "1" or mflags != after:
                 rep.disagree(f"evaluation phase: model '{o}' vs code count={cnt} flags={after}", {"line": line, **case})
+    effect_correspondence(ctx, rep)
     optimizer_counts(ctx, rep)
 
 
